@@ -28,6 +28,14 @@ S = "ebpfcat.serial.Serial"
 
 
 def run(chk, repo):
+    # the strings and handshake bits travel through PacketVar accessors:
+    # their rules (shared with C19) are necessary conditions here
+    from . import c19
+    chk.doc("R19.2", "accessors transfer the declared bytes/bit unchanged "
+                     "(shared with C19)")
+    chk.doc("R19.4", "accessor closures (shared with C19)")
+    c19.widths(chk, repo)
+    c19.closures(chk, repo)
     chk.doc("R28.1", "one toggle per chunk, with the data")
     chk.doc("R28.2", "chunk fits the terminal's string and channel block")
     chk.doc("R28.3", "initialisation")
@@ -71,6 +79,30 @@ def run(chk, repo):
     chk.ob("R28.3", sym, "the init request is withdrawn otherwise", ok, f,
            "first statement")
     # ---------------------------------------------------------- R28.1 rx
+    # every connected cycle ends with the peer's request bit remembered:
+    # on the CFG, each path to the exit passes the init branch's return or
+    # a store to last_receive_request
+    cfg = CFG(f)
+    init_ids = {id(x) for x in ast.walk(ib)}
+    latch = [n for n in cfg.nodes if n.kind == "stmt" and isinstance(
+        n.stmt, ast.Assign) and id(n.stmt) not in init_ids and any(
+            is_self_attr(t, "last_receive_request") for t in n.stmt.targets)]
+    init_rets = [n for n in cfg.nodes if n.kind == "return"
+                 and id(n.stmt) in init_ids]
+    okl = bool(latch) and cfg.must_pass(
+        cfg.entry, lambda n: n in latch or n in init_rets,
+        targets=[cfg.exit])
+    path = None
+    if not okl:
+        wpath = cfg.witness_path(cfg.entry, lambda n: n in latch
+                                 or n in init_rets, targets=[cfg.exit])
+        path = cfg.describe_path(wpath) if wpath else None
+    chk.ob("R28.1", sym, "every connected cycle remembers the request bit "
+           "it has seen", okl, latch[0].stmt if latch else f,
+           "a cycle that leaves update() without latching "
+           "last_receive_request sees the same toggle again next cycle: "
+           "the chunk is delivered twice and the accept bit toggles twice",
+           path)
     rx = [s for s in ifs if match(
         "self.last_receive_request != self.receive_request", s.test)
         is not None]
